@@ -1,14 +1,15 @@
 #!/usr/bin/env python3
 """Re-runs the checks that reported each kept seeded change (seeded/<id>/meta.json) against it and says which still do.
-usage: seed_regress.py [id-prefix ...]     (patches are applied to /repo's working tree one at a time and reverted)"""
+usage: seed_regress.py [id-prefix ...]     (patches are applied to the working tree of /repo — or of $VERIF_REPO — one at a time and reverted)"""
 import json, os, subprocess, sys, time
 V = os.path.dirname(os.path.dirname(os.path.abspath(__file__)))
+REPO = os.environ.get('VERIF_REPO', '/repo')     # a scratch copy of the repository when given (then PYTHONPATH must point there too)
 def sh(cmd):
     return subprocess.run(cmd, shell=True, stdout=subprocess.PIPE, stderr=subprocess.STDOUT, text=True)
 ids = sorted(os.listdir(os.path.join(V, 'seeded')))
 if len(sys.argv) > 1:
     ids = [i for i in ids if any(i.startswith(p) for p in sys.argv[1:])]
-assert sh('git -C /repo status --porcelain').stdout.strip() == '', '/repo not clean'
+assert sh('git -C %s status --porcelain' % REPO).stdout.strip() == '', REPO + ' not clean'
 saved = {}
 lost = []
 for sid in ids:
@@ -17,9 +18,9 @@ for sid in ids:
     caught_by = [c for c, r in meta['checks'].items() if r['exit'] == 1 and r['violation_line']]
     if not caught_by:
         continue
-    ap = sh('git -C /repo apply %s/patch.diff' % d)
+    ap = sh('git -C %s apply %s/patch.diff' % (REPO, d))
     if ap.returncode != 0:
-        print('%s: patch does not apply any more (%s)' % (sid, ap.stdout.strip()[:100])); sh('git -C /repo checkout -- .'); continue
+        print('%s: patch does not apply any more (%s)' % (sid, ap.stdout.strip()[:100])); sh('git -C %s checkout -- .' % REPO); continue
     try:
         res = []
         for c in caught_by[:1]:
@@ -35,7 +36,7 @@ for sid in ids:
                 lost.append((sid, c))
         print('%s: %s' % (sid, '; '.join(res)), flush=True)
     finally:
-        sh('git -C /repo checkout -- .')
+        sh('git -C %s checkout -- .' % REPO)
 for c, txt in saved.items():
     open(os.path.join(V, 'evidence', c + '.json'), 'w').write(txt)
 print('LOST:', lost)
